@@ -60,22 +60,28 @@ func Run(t *testing.T, fn func(raw json.RawMessage) any) {
 }
 
 func call(fn func(raw json.RawMessage) any, line []byte) (res any) {
+	finished := false
 	defer func() {
-		if p := recover(); p != nil {
-			res = map[string]any{"driver_panic": fmt.Sprint(p)}
+		if !finished {
+			res = map[string]any{"driver_panic": fmt.Sprint(recover())}
 		}
 	}()
-	return fn(json.RawMessage(line))
+	res = fn(json.RawMessage(line))
+	finished = true
+	return
 }
 
-// Catch runs f and reports whether it panicked (and with what).
+// Catch runs f and reports whether it panicked (and with what). A completion flag, not the recovered
+// value, decides: panic(nil) counts as a panic too.
 func Catch(f func()) (panicked bool, val string) {
+	finished := false
 	defer func() {
-		if p := recover(); p != nil {
+		if !finished {
 			panicked = true
-			val = fmt.Sprint(p)
+			val = fmt.Sprint(recover())
 		}
 	}()
 	f()
+	finished = true
 	return
 }
